@@ -168,6 +168,7 @@ PROPS = {
                          + ["rel_tag_" + t for t in _TAGS if t not in ("sni", "elliptic_curves", "signature_algorithms", "supported_versions", "psk_key_exchange_modes")],
                    thorough=["rel_tag_sni", "rel_tag_elliptic_curves", "rel_tag_signature_algorithms", "rel_tag_supported_versions", "rel_tag_psk_key_exchange_modes"], timeout=900, timeout_thorough=2400)],
         witness_search={"dispatch_ext": {"ext_search": True}},
+        paired={'ext_contents': ['leaf_ext_psk_modes', 'leaf_ext_supported_versions', 'leaf_ext_elliptic_curves', 'leaf_ext_esni', 'leaf_ext_ec_point_formats', 'leaf_ext_early_data'], 'ext_lists2': ['leaf_ext_sni', 'leaf_ext_alpn', 'leaf_ext_signature_algorithms', 'leaf_ext_oid_filters']},
         explanation="see level_text",
     ),
     "C03": dict(
@@ -178,7 +179,7 @@ PROPS = {
         verus=["many", "plaintext", "messages", "dispatch_hs"],
         standins=[dict(name="framing_boundaries", kind="bounded-execution", bound="declared lengths {0,1,2,3,16383..16385,16639..16641,32768,65535} x 3 content types x 8 prefix cuts, TLS raw/encrypted/plaintext/tls_parser + DTLS record (372 cases)", payload={"framing_boundary_check": 1})],
         kani=[dict(quick=["fd_msg_ccs", "fd_msg_alert", "leaf_msg_appdata", "leaf_msg_heartbeat", "leaf_prwh_heartbeat", "leaf_prwh_appdata", "shim_complete", "shim_many1"], timeout=900)],
-        paired={"many": ["leaf_prwh_heartbeat", "leaf_prwh_appdata"]},
+        paired={'many': ['leaf_prwh_heartbeat', 'leaf_prwh_appdata'], 'messages': ['fd_msg_ccs', 'fd_msg_alert', 'leaf_msg_heartbeat', 'leaf_msg_appdata']},
         explanation="see level_text",
     ),
     "C02": dict(
@@ -204,7 +205,7 @@ PROPS = {
                           "leaf_hs_next_protocol", "leaf_hs_certificate", "mod_client_hello", "mod_client_hello_long", "leaf_hs_client_hello_sid33", "leaf_cipher_suites", "leaf_compressions",
                           "shim_be", "shim_take", "shim_length_data", "shim_opt_cond", "shim_verify", "shim_length_count", "shim_alt", "shim_map_parser", "shim_many0", "shim_complete"],
                    thorough=["leaf_hs_certificate_request"], timeout=900, timeout_thorough=2400)],
-        paired={"dispatch_hs": []},
+        paired={'dispatch_hs': [], 'hellos': ['leaf_hs_server_hello', 'leaf_hs_server_hello_msg', 'mod_client_hello', 'leaf_hs_ske', 'leaf_hs_cke', 'leaf_hs_finished'], 'certs': ['leaf_hs_certificate'], 'bodies': ['leaf_hs_newsessionticket', 'leaf_hs_certificatestatus', 'leaf_hs_next_protocol'], 'bodies2': ['leaf_hs_hello_retry_request', 'leaf_hs_server_hello_msg']},
         explanation="see level_text",
     ),
     "C10": dict(
@@ -215,6 +216,7 @@ PROPS = {
         verus=["dtls", "dtls_many", "bodies2", "hellos"],
         standins=[dict(name="framing_boundaries", kind="bounded-execution", bound="declared lengths {0,1,2,3,16383..16385,16639..16641,32768,65535} x 3 content types x 8 prefix cuts, TLS raw/encrypted/plaintext/tls_parser + DTLS record (372 cases)", payload={"framing_boundary_check": 1})],
         kani=[dict(quick=["fd_dtls_header", "fd_dtls_ccs_alert", "fd_dtls_is_fragment", "leaf_dtls_hvr", "leaf_dtls_fragment", "mod_dtls_client_hello", "shim_be", "shim_be64", "shim_take", "shim_map_parser", "shim_many1", "shim_verify"], timeout=900)],
+        paired={'hellos': ['mod_dtls_client_hello'], 'dtls': ['fd_dtls_header', 'fd_dtls_is_fragment', 'leaf_dtls_fragment'], 'bodies2': ['leaf_dtls_hvr']},
         explanation="see level_text",
     ),
     "C16": dict(
@@ -246,6 +248,7 @@ PROPS = {
         verus=["sct", "sct_content"],
         standins=[dict(name="sct_lists", kind="bounded-execution", bound="lists of 0..5 well-formed SCTs in 3 shapes (minimal 49-byte entries, with extensions/signature, mixed)", payload={"sct_list_check": 1})],
         kani=[dict(quick=["leaf_sct_entry", "leaf_sct_list_tiny", "shim_many0", "shim_map_parser", "shim_length_data", "shim_be64", "shim_be", "shim_take"], thorough=["leaf_sct_list_short"], timeout=900, timeout_thorough=2400)],
+        paired={'sct_content': ['leaf_sct_entry'], 'sct': ['leaf_sct_entry', 'leaf_sct_list_tiny']},
         explanation="see level_text",
     ),
     "C15": dict(
@@ -255,6 +258,7 @@ PROPS = {
         technique="contract-based deductive verification: Verus on the extracted accessor bodies (unbounded) + Kani contract harnesses on the compiled code",
         verus=["accessors"],
         kani=[dict(quick=["leaf_ch_accessors_tls", "leaf_ch_accessors_dtls", "fd_server_hello_ctor", "mod_ch_cipher_suites", "fd_route_get_ciphersuite", "fd_from_id"], timeout=900)],
+        paired={'accessors': ['leaf_ch_accessors_tls', 'leaf_ch_accessors_dtls', 'fd_server_hello_ctor']},
         explanation="see level_text",
     ),
     "C17": dict(
